@@ -17,7 +17,11 @@
       they fail (wait) while the key is held incompatibly and succeed when the
       key is free, whatever other keys are held or awaited (for programs whose
       mutexes are fresh: calls on different keys carry different values), and
-      disciplined runs never panic.
+      disciplined runs never panic;
+   6. a static sufficient condition for the discipline ([balanced]: every
+      Unlock/RUnlock of a thread's program is preceded by an unmatched blocking
+      Lock/RLock of the same key), hence mutual exclusion for all balanced
+      programs under ALL schedules.
 
    Part 0 (flat configurations: no Range, so no nested frames; the history
    ghosts) is independent of the insert-only restriction and is reused by
@@ -1822,3 +1826,201 @@ Proof.
   { rewrite Hpc in Hpost; destruct p; cbn in Hpost; try discriminate; reflexivity. }
   cbn [key_of]. apply elem_of_app. right. left.
 Qed.
+
+(* ================================================================== *)
+(* 6. a static sufficient condition for the discipline                *)
+(* ================================================================== *)
+Section cnt.
+Context {A : Type} `{EqDecision A}.
+Fixpoint cnt (x : A) (l : list A) : nat :=
+  match l with [] => 0 | y :: l' => (if decide (x = y) then 1 else 0) + cnt x l' end.
+Fixpoint rem1 (x : A) (l : list A) : list A :=
+  match l with [] => [] | y :: l' => if decide (x = y) then l' else y :: rem1 x l' end.
+Lemma cnt_app x l1 l2 : cnt x (l1 ++ l2) = cnt x l1 + cnt x l2.
+Proof. induction l1 as [|y l1 IH]; cbn; [reflexivity|]. rewrite IH. lia. Qed.
+Lemma cnt_pos x l : x ∈ l <-> 0 < cnt x l.
+Proof.
+  induction l as [|y l IH]; cbn.
+  - split; [intros H; inversion H|lia].
+  - rewrite elem_of_cons, IH. destruct (decide (x = y)); [split; [lia|auto]|split; [intros [?|?]; [contradiction|lia]|intros; right; lia]].
+Qed.
+Lemma cnt_rem1_same x l : cnt x (rem1 x l) = cnt x l - 1.
+Proof.
+  induction l as [|y l IH]; cbn; [reflexivity|]. destruct (decide (x = y)) as [->|N]; [lia|].
+  cbn. rewrite decide_False by exact N. rewrite IH. lia.
+Qed.
+Lemma cnt_rem1_other x y l : y <> x -> cnt y (rem1 x l) = cnt y l.
+Proof.
+  intros N. induction l as [|z l IH]; cbn; [reflexivity|]. destruct (decide (x = z)) as [->|N2].
+  - rewrite decide_False by exact N. reflexivity.
+  - cbn. rewrite IH. reflexivity.
+Qed.
+End cnt.
+
+Lemma remove_first_rem1 x l : remove_first x l = rem1 x l.
+Proof. induction l as [|y l IH]; cbn; [reflexivity|]. destruct (decide (x = y)); [reflexivity|]. rewrite IH. reflexivity. Qed.
+
+(* what thread certainly holds after a prefix of its program: blocking Lock/RLock acquire, Unlock/RUnlock
+   must find the key in the list and release it; keys acquired by Try* are never counted (so never unlocked) *)
+Fixpoint balanced_from (held : list (Z * bool)) (prog : list call) : Prop :=
+  match prog with
+  | [] => True
+  | c :: prog' =>
+      match c with
+      | CLoadOrStore _ k _ (PLock | PWLock) => balanced_from ((k, true) :: held) prog'
+      | CLoadOrStore _ k _ PRLock => balanced_from ((k, false) :: held) prog'
+      | CLoadOrStore _ k _ (PUnlock | PWUnlock) => (k, true) ∈ held /\ balanced_from (rem1 (k, true) held) prog'
+      | CLoadOrStore _ k _ PRUnlock => (k, false) ∈ held /\ balanced_from (rem1 (k, false) held) prog'
+      | _ => balanced_from held prog'
+      end
+  end.
+Definition balanced (progs : list (list call)) : Prop := Forall (balanced_from []) progs.
+
+(* the calls a thread still has to complete *)
+Definition todo (th : thread) : list call :=
+  match t_stack th with [f] => f_call f :: t_prog th | _ => t_prog th end.
+
+Definition BInv (c : config) : Prop :=
+  forall t th, nth_error (c_threads c) t = Some th ->
+    exists held, (forall k b, cnt (k, b) held <= cnt (t, k, b) (holders c)) /\ balanced_from held (todo th).
+
+Lemma todo_next_call prog res : todo (next_call (Thread prog [] res false)) = prog.
+Proof. unfold next_call, todo. cbn. destruct prog; reflexivity. Qed.
+
+Lemma sf_ret_nopost t i f ch i' r : io_call (f_call f) -> pc_ok (f_call f) (f_pc f) = true ->
+  step_frame t i f ch = Some (Ok (i', Return r)) ->
+  match f_call f with CLoadOrStore _ _ _ p => p = PNone | _ => True end.
+Proof.
+  intros Hio Hpc H. unfold step_frame in H.
+  destruct (f_call f) as [j k|?|j k v p| | |] eqn:Hcall; try contradiction; try exact I.
+  destruct (f_pc f) eqn:Hl; try discriminate Hpc; try discriminate H; try (destruct p; discriminate Hpc);
+    unfold expunge_done, tlos_done, bind in H; unfold after_miss, dirty_next, los_return in H;
+    rewrite ?Hcall in H; repeat case_match; simplify_eq; destruct p; try reflexivity; discriminate.
+Qed.
+
+Lemma BInv_disciplined c t : IOInv c -> BInv c -> disciplined c t.
+Proof.
+  intros HIO HB f Tt. unfold top_frame in Tt. destruct (nth_error (c_threads c) t) as [th|] eqn:Hth; [|discriminate].
+  destruct (io_shape _ HIO t th Hth) as [_ Hs]. destruct (t_stack th) as [|f0 [|]] eqn:Hst; try discriminate; try contradiction.
+  cbn in Tt. injection Tt as ->.
+  assert (Tt : top_frame c t = Some f) by (unfold top_frame; rewrite Hth, Hst; reflexivity).
+  destruct (HB t th Hth) as (held & Hcnt & Hbal). unfold todo in Hbal. rewrite Hst in Hbal.
+  destruct (is_post_label (f_pc f)) eqn:Hpl; [|destruct (f_pc f); try exact I; discriminate].
+  assert (Hfo := fo_post _ (inv_frames c (io_inv _ HIO) t f Tt) Hpl).
+  destruct (f_call f) as [| |j k v p| | |] eqn:Hcall; try contradiction.
+  pose proof (pc_ok_post_label _ _ _ _ _ ltac:(rewrite <- Hcall; apply (io_pc _ HIO t f Tt)) Hpl) as Hpost.
+  cbn [key_of]. unfold holds_excl, holds_shared.
+  destruct p; cbn in Hpost; try discriminate Hpost; injection Hpost as Hpost; rewrite <- Hpost; try exact I; cbn in Hbal; destruct Hbal as [Hin _];
+    apply cnt_pos in Hin; apply cnt_pos; specialize (Hcnt k); [specialize (Hcnt true)|specialize (Hcnt true)|specialize (Hcnt false)]; lia.
+Qed.
+
+Lemma cnt_hold_step_other hs t cl r t' k b : t' <> t -> cnt (t', k, b) (hold_step hs (t, cl, r)) = cnt (t', k, b) hs.
+Proof.
+  intros N. unfold hold_step. cbn [fst snd]. destruct (acquires cl r) as [[k0 b0]|].
+  - rewrite cnt_app. cbn. rewrite decide_False by congruence. lia.
+  - destruct (releases cl r) as [[k0 b0]|]; [|reflexivity]. rewrite remove_first_rem1. apply cnt_rem1_other. congruence.
+Qed.
+
+Lemma step_post_lock_res um f um' r : step_post um f = Some (Ok (um', Return r)) ->
+  match f_pc f with
+  | KM_Lock | KRW_Lock | KRW_RLock | KM_Unlock | KRW_Unlock | KRW_RUnlock => r = RUnit
+  | _ => exists b, r = RBool b
+  end.
+Proof. unfold step_post. intros H. destruct (f_pc f); try discriminate H; repeat case_match; simplify_eq; eauto. Qed.
+
+Theorem BInv_step c t ch c' : IOInv c -> BInv c -> step c t ch = Some c' -> BInv c'.
+Proof.
+  intros HIO HB Hstep. destruct HIO as [HI HS HP HH _].
+  assert (HS0 : Shaped flat_call c) by (eapply Shaped_weaken; [apply io_flat|exact HS]).
+  pose proof (step_fstep _ _ _ _ HI HS0 Hstep) as Hfs.
+  (* it suffices to say what happens to the holders and to thread t *)
+  assert (Hgen : forall th f th' hs', nth_error (c_threads c) t = Some th -> t_stack th = [f] ->
+            c_threads c' = set_nth_list t th' (c_threads c) ->
+            holders c' = hs' -> (hs' = holders c \/ exists cl r, hs' = hold_step (holders c) (t, cl, r)) ->
+            (forall held, (forall k b, cnt (k, b) held <= cnt (t, k, b) (holders c)) -> balanced_from held (f_call f :: t_prog th) ->
+               exists held', (forall k b, cnt (k, b) held' <= cnt (t, k, b) hs') /\ balanced_from held' (todo th')) ->
+            BInv c').
+  { intros th f th' hs' Hth Hst Hc' Hh Hhs Ht t' th0. rewrite Hc'.
+    assert (Hl : t < length (c_threads c)) by (eapply nth_error_lt; eauto).
+    destruct (decide (t' = t)) as [->|N].
+    - rewrite nth_error_set_nth_list_eq by exact Hl. intros [= <-]. rewrite Hh.
+      destruct (HB t th Hth) as (held & H1 & H2). unfold todo in H2. rewrite Hst in H2. eauto.
+    - rewrite nth_error_set_nth_list_ne by auto. intros Hth0. destruct (HB t' th0 Hth0) as (held & H1 & H2).
+      exists held. split; [|exact H2]. intros k b. rewrite Hh.
+      destruct Hhs as [->|(cl & r & ->)]; [apply H1|]. rewrite cnt_hold_step_other by exact N. apply H1. }
+  destruct Hfs as [th f um' r Hth Hst Hpl Hsp|th f k Hth Hst Hpl Hsp|th f i0 i' f' Hth Hst Hpl Hi1 Hsf|th f i0 i' r Hth Hst Hpl Hi1 Hsf];
+    (assert (Tt : top_frame c t = Some f) by (unfold top_frame; rewrite Hth, Hst; reflexivity));
+    (assert (P0 : t_fresh th = false -> pend_of (c_hist c) !! t = Some (f_call f)) by (eapply HistOK_pend; eauto));
+    (assert (Hio : io_call (f_call f)) by (destruct (HS t th Hth) as [_ Hs]; rewrite Hst in Hs; exact Hs)).
+  - (* the step on the key's mutex *)
+    assert (Hfo := fo_post _ (inv_frames c HI t f Tt) Hpl).
+    destruct (f_call f) as [| |j k v p| | |] eqn:Hcall; try contradiction.
+    specialize (HP t f Tt). rewrite Hcall in HP. pose proof (pc_ok_post_label _ _ _ _ _ HP Hpl) as Hpost.
+    pose proof (step_post_lock_res _ _ _ _ Hsp) as Hres.
+    eapply (Hgen th f _ (hold_step (holders c) (t, CLoadOrStore j k v p, r)) Hth Hst eq_refl).
+    + unfold holders. cbn [c_hist]. unfold inv_ev. rewrite Hcall. fold (maybe_inv (t_fresh th) t (CLoadOrStore j k v p)).
+      rewrite completed_ret by exact P0. rewrite holders_of_snoc. reflexivity.
+    + right. eauto.
+    + intros held Hcnt Hbal. rewrite todo_next_call. rewrite Hcall in Hbal. unfold hold_step. cbn [fst snd].
+      destruct p; cbn in Hpost; try discriminate Hpost; injection Hpost as Hpost; rewrite <- Hpost in Hres;
+        cbn in Hres; first [subst r|destruct Hres as [b ->]]; cbn [acquires releases] in *; cbn in Hbal.
+      all: try (destruct b).
+      all: try (exists ((k, true) :: held); split; [|exact Hbal]; intros k0 b0; specialize (Hcnt k0 b0); rewrite cnt_app; cbn;
+                repeat case_decide; simplify_eq; lia).
+      all: try (exists ((k, false) :: held); split; [|exact Hbal]; intros k0 b0; specialize (Hcnt k0 b0); rewrite cnt_app; cbn;
+                repeat case_decide; simplify_eq; lia).
+      all: try (exists held; split; [|exact Hbal]; intros k0 b0; specialize (Hcnt k0 b0); rewrite ?cnt_app; cbn; lia).
+      all: destruct Hbal as [Hin Hbal]; eexists; (split; [|exact Hbal]); intros k0 b0; specialize (Hcnt k0 b0);
+           rewrite remove_first_rem1;
+           match goal with |- context [rem1 (_, ?kk, ?bb) (holders _)] =>
+             destruct (decide ((k0, b0) = (kk, bb))) as [E|N];
+             [injection E as -> ->; rewrite !cnt_rem1_same; lia
+             |rewrite !cnt_rem1_other by congruence; exact Hcnt] end.
+  - (* ... panics: the thread is dead *)
+    eapply (Hgen th f _ (holders c) Hth Hst eq_refl); [|left; reflexivity|].
+    + unfold holders. cbn [c_hist]. unfold inv_ev. fold (maybe_inv (t_fresh th) t (f_call f)).
+      rewrite completed_ret by exact P0. rewrite holders_of_snoc. apply hold_step_other; discriminate.
+    + intros held Hcnt Hbal. exists []. split; [intros; cbn; lia|exact I].
+  - (* map steps: nothing changes *)
+    eapply (Hgen th f _ (holders c) Hth Hst eq_refl); [|left; reflexivity|].
+    + unfold holders. cbn [c_hist]. unfold inv_ev. fold (maybe_inv (t_fresh th) t (f_call f)).
+      rewrite completed_cont by exact P0. reflexivity.
+    + intros held Hcnt Hbal. exists held. split; [exact Hcnt|]. unfold todo. cbn.
+      rewrite (sf_call _ _ _ _ _ _ Hsf). exact Hbal.
+  - (* a plain LoadOrStore or a Load returns *)
+    pose proof (sf_ret_nopost _ _ _ _ _ _ Hio (HP t f Tt) Hsf) as Hnp.
+    eapply (Hgen th f _ (holders c) Hth Hst eq_refl); [|left; reflexivity|].
+    + unfold holders. cbn [c_hist]. unfold inv_ev. fold (maybe_inv (t_fresh th) t (f_call f)).
+      rewrite completed_ret by exact P0. rewrite holders_of_snoc. rewrite io_call_not_delete by exact Hio.
+      destruct (sf_ret_shape _ _ _ _ _ _ Hio (HP t f Tt) Hsf) as [[o ->]|(a & l & ->)]; apply hold_step_other; discriminate.
+    + intros held Hcnt Hbal. exists held. split; [exact Hcnt|]. rewrite todo_next_call.
+      destruct (f_call f) as [| |j k v p| | |]; try contradiction; [exact Hbal|]. subst p. exact Hbal.
+Qed.
+
+Lemma BInv_init progs : balanced progs -> BInv (init_config 1 progs).
+Proof.
+  intros Hb t th. cbn. rewrite nth_error_map. destruct (nth_error progs t) as [p|] eqn:E; [|discriminate]. cbn.
+  intros [= <-]. exists []. split; [intros; cbn; lia|]. rewrite todo_next_call.
+  unfold balanced in Hb. rewrite Forall_forall in Hb. apply Hb. eapply nth_error_In, E.
+Qed.
+
+(* balanced programs are disciplined under every schedule *)
+Theorem balanced_disciplined progs sched : io_progs progs -> balanced progs -> disc_from (init_config 1 progs) sched.
+Proof.
+  intros Hp Hb.
+  enough (H : forall c, IOInv c -> BInv c -> disc_from c sched) by (apply H; [apply IOInv_init, Hp|apply BInv_init, Hb]).
+  induction sched as [|[t ch] sched IH]; intros c HIO HB; cbn; [exact I|].
+  split; [apply BInv_disciplined; assumption|].
+  destruct (step c t ch) as [c'|] eqn:E; cbn; [|apply IH; assumption].
+  apply IH; [apply (IOInv_step _ _ _ _ HIO E)|eapply BInv_step; eauto].
+Qed.
+
+(* hence: per-key mutual exclusion for all balanced programs and ALL schedules *)
+Corollary keyed_mutual_exclusion_balanced progs sched : io_progs progs -> balanced progs ->
+  let c := run_schedule (init_config 1 progs) sched in
+  forall k t1 t2, holds_excl c t1 k -> (holds_excl c t2 k -> t1 = t2) /\ ~ holds_shared c t2 k.
+Proof. intros Hp Hb. apply keyed_mutual_exclusion; [exact Hp|apply balanced_disciplined; assumption]. Qed.
+
+
+Lemma ex_progs_balanced : balanced ex_progs.
+Proof. repeat constructor. Qed.
